@@ -127,6 +127,31 @@ func checkC11(c *vk.Ctx) {
 		{Kind: "ping", C: 0, N: 2},
 	})
 	c11Inbound(c)
+	// inbound quota under refused publishes: publishers only (no subscriptions, so the recorded cross-direction quota
+	// findings cannot interfere), server Receive Maximum 1-3, a third of the publishes denied by the ACL, some to $SYS
+	// topics; the clients acknowledge-wait after every publish, so they never exceed the advertised Receive Maximum.
+	p3 := qosProfile()
+	p3.Name = "flow-refused"
+	p3.SlotIDs = []int{0, 1}
+	p3.NoSelfTakeover = true
+	p3.Versions = []byte{5, 5, 4}
+	p3.RecvMax = nil
+	p3.CleanPct = 100
+	p3.Expiry = []uint32{0}
+	p3.DenyPct = 35
+	p3.BadTopicPct = 15
+	p3.PubQoS = []byte{1, 2, 2}
+	p3.MaxQoS = []byte{2, 2, 1}
+	p3.HowDisc = []string{"normal"}
+	p3.Steps = [2]int{25, 50}
+	p3.W = map[string]int{"connect": 2, "publish": 20, "ping": 2}
+	h3 := &histRun{Prop: "C11", Profile: p3, N: c.N(200, 5000), Label: 1103, Nontrivial: []string{"publish_denied", "publish_refused_topic"},
+		Mutate: func(r *vk.Rand, cfg *hist.Config, ops []hist.Op) []hist.Op {
+			cfg.ServerRecvMax = uint16(r.Range(1, 3))
+			return ops
+		}}
+	h3.run(c)
+	c.MinEvents["publish_denied"] = 200
 }
 
 func checkC12(c *vk.Ctx) {
